@@ -309,6 +309,18 @@ def b_bytes(it, args, kw, fr):
     raise OutOfSubset("bytes(x)")
 
 
+def _short_list_facts(it, s, present, ks):
+    """quantifier-free consequences of `s lists exactly the members of present, each once` for lengths 0..3
+    (instances of the quantified facts above; they let a solver build finite models for short runs)"""
+    acc = z3.K(ks, z3.BoolVal(False))
+    for n in range(4):
+        if n:
+            acc = z3.Store(acc, s[n - 1], z3.BoolVal(True))
+        facts = [present == acc]
+        facts += [s[a] != s[b] for a in range(n) for b in range(a + 1, n)]
+        it.ctx.assume(z3.Implies(z3.Length(s) == n, z3.And(facts)))
+
+
 def b_list(it, args, kw, fr):
     if not args:
         return VList([])
@@ -324,7 +336,21 @@ def b_list(it, args, kw, fr):
         s = z3.Const(it.ctx.namer("list_of_set"), z3.SeqSort(sort_of(v.elem)))
         k = z3.Const("k!los", sort_of(v.elem))
         it.ctx.assume(z3.ForAll([k], z3.Contains(s, z3.Unit(k)) == v.z[k]))
-        return VSeq(s, v.elem)
+        r = VSeq(s, v.elem)
+        r.members_of = (v.z, v.elem)
+        return r
+    if isinstance(v, VMap):
+        # list(d): the keys, each once (insertion order is not modelled: an arbitrary order)
+        ks = sort_of(v.kt)
+        s = z3.Const(it.ctx.namer("list_of_keys"), z3.SeqSort(ks))
+        k = z3.Const("k!lok", ks)
+        i, j = z3.Int("i!lok"), z3.Int("j!lok")
+        it.ctx.assume(z3.ForAll([k], z3.Contains(s, z3.Unit(k)) == z3.Select(v.present, k)))
+        it.ctx.assume(z3.ForAll([i, j], z3.Implies(z3.And(0 <= i, i < j, j < z3.Length(s)), s[i] != s[j])))
+        _short_list_facts(it, s, v.present, ks)
+        r = VSeq(s, v.kt)
+        r.members_of = (v.present, v.kt)      # see Interp.unroll_bounded
+        return r
     if isinstance(v, VJson):
         v = it.json_narrow(v)
         if isinstance(v, VSeq):
